@@ -83,12 +83,10 @@ INPUT_SIGS = {
     'skip_until': ("fn skip_until(&mut self, strings: &'i [&'i str]) -> (res: bool)", '''
         requires input_inv(old(self).ctx(), old(self).off()),
         ensures final(self).ctx() == old(self).ctx(), input_inv(final(self).ctx(), final(self).off()),
-                final(self).off() >= old(self).off(),
-                // stops at the least boundary offset at which one of the needles is a prefix of the *remaining
-                // input* (cut at the end of the sub-input: nothing at or beyond `end` may influence the outcome)
-                res ==> needle_at(old(self).ctx(), strings@, final(self).off()) && final(self).off() < old(self).ctx().end,
-                !res ==> final(self).off() == old(self).ctx().end,
-                forall|k: nat| old(self).off() <= k < final(self).off() ==> !needle_at(old(self).ctx(), strings@, k),'''),
+                // stops at the least offset at which one of the needles is a prefix of the *remaining input*
+                // (cut at the end of the sub-input: nothing at or beyond `end` may influence the outcome), else at `end`
+                skip_until_stop(old(self).ctx(), strings@, old(self).off(), final(self).off()),
+                res == (final(self).off() < old(self).ctx().end),'''),
 }
 
 
@@ -240,6 +238,9 @@ pub open spec fn eq_ignore_case(a: Seq<u8>, b: Seq<u8>) -> bool {
 pub open spec fn insens_prefix(s: Seq<u8>, r: Seq<u8>) -> bool {
     s.len() <= r.len() && is_char_boundary(r, s.len() as int) && eq_ignore_case(r.subrange(0, s.len() as int), s)
 }
+pub open spec fn skip_until_stop(c: Ctx, needles: Seq<&str>, pos: nat, k: nat) -> bool {
+    pos <= k && k <= c.end && (k == c.end || needle_at(c, needles, k)) && forall|j: nat| pos <= j < k ==> !needle_at(c, needles, j)
+}
 // first scalar value of a byte string: the char whose UTF-8 encoding is a prefix of it (unique: UTF-8 is prefix-free)
 pub open spec fn starts_with_char(b: Seq<u8>, c: char) -> bool { is_prefix(encode_scalar(c as u32), b) }
 pub open spec fn first_char(b: Seq<u8>) -> Option<char> {
@@ -292,10 +293,14 @@ pub trait NeverFailedTypedNode<'i, R: RuleType>: Sized {
 }
 pub trait TypedNode<'i, R: RuleType>: Sized {
     spec fn sem(c: Ctx<'i>, pos: nat, st: Seq<Span<'i>>) -> Res<'i>;
+    // what the node built by a successful parse at (c, pos, st) exposes (C17): which alternative, which
+    // character / spelling / span.  `true` for nodes that expose nothing of their own.
+    spec fn node_ok(c: Ctx<'i>, pos: nat, st: Seq<Span<'i>>, end: nat, n: Self) -> bool;
     fn try_parse_partial_with<I: Input<'i>>(input: I, stack: &mut Stack<Span<'i>>) -> (r: Option<(I, Self)>)
         requires inv(input), stack_all_wf(old(stack)@),
         ensures match Self::sem(input.ctx(), input.off(), old(stack)@.cur) {
-                    Some((p, s)) => r is Some && post_some(input, old(stack)@, (r->0).0, final(stack)@, p, s),
+                    Some((p, s)) => r is Some && post_some(input, old(stack)@, (r->0).0, final(stack)@, p, s)
+                        && Self::node_ok(input.ctx(), input.off(), old(stack)@.cur, p, (r->0).1),
                     None => r is None && post_none(old(stack)@, final(stack)@),
                 };
     fn try_check_partial_with<I: Input<'i>>(input: I, stack: &mut Stack<Span<'i>>) -> (r: Option<I>)
@@ -321,7 +326,8 @@ def cl_parse(T, inp='input'):
     return ('''-> (r: Option<(I, %(T)s)>)
             requires inv(%(i)s), stack_all_wf(old(stack)@),
             ensures match %(T)s::sem(%(i)s.ctx(), %(i)s.off(), old(stack)@.cur) {
-                Some((p, s)) => r is Some && post_some(%(i)s, old(stack)@, (r->0).0, final(stack)@, p, s),
+                Some((p, s)) => r is Some && post_some(%(i)s, old(stack)@, (r->0).0, final(stack)@, p, s)
+                    && %(T)s::node_ok(%(i)s.ctx(), %(i)s.off(), old(stack)@.cur, p, (r->0).1),
                 None => r is None && post_none(old(stack)@, final(stack)@),
             }''' % {'T': T, 'i': inp})
 
@@ -329,6 +335,12 @@ def cl_parse(T, inp='input'):
 def hints(item):
     """Make the stack lemmas available in every extracted body (anchor: function start)."""
     return item.body_start_all('        broadcast use group_stack;')
+
+
+def semdef(sem_expr, node_ok='true'):
+    """The two spec fns every TypedNode impl defines in the verified text."""
+    return ("    open spec fn sem(c: Ctx<'i>, pos: nat, st: Seq<Span<'i>>) -> Res<'i> { %s }\n"
+            "    open spec fn node_ok(c: Ctx<'i>, pos: nat, st: Seq<Span<'i>>, end: nat, n: Self) -> bool { %s }" % (sem_expr, node_ok))
 
 
 STACK_PARAM = "stack: &mut Stack<Span<'i>>"
